@@ -37,6 +37,7 @@ type immCfg struct {
 	//  0 remote address; 1 ProxyHeader=X-Real-Ip (value returned as is);
 	//  2 ProxyHeader=X-Forwarded-For + EnableIPValidation (first valid address of the list);
 	//  3 as 2 with TrustProxy on and the peer listed in TrustProxyConfig.Proxies
+	//  4 ProxyHeader=X-Forwarded-For, TrustProxy on, the peer NOT listed: forwarding headers ignored
 	Proxy int
 	Split bool // Config.EnableSplittingOnParsers
 }
@@ -52,16 +53,23 @@ type immShape struct {
 	Kind string
 	Fwd  bool // X-Forwarded-Proto / X-Forwarded-Host present
 	Port bool
+	// SameHost: every request of the run carries the same Host header, and the forwarding
+	// headers rotate (none / X-Forwarded-Proto / X-Forwarded-Proto + X-Forwarded-Host): scheme and
+	// effective host change while the Host header does not.
+	SameHost bool
 	// Route: 0 the request matches the capture route; 1 it matches no route (404); 2 its path is
 	// registered for other methods only (405). In 1 and 2 the app's ErrorHandler is the observer.
 	Route int
 	Comma bool   // the values bound into string and []string fields contain a comma
 	CEnc  string // a Content-Encoding the framework does not decode (json/xml/cbor bodies only), "" = none
 	Len   map[string]int
+
+	hostS1, hostS2 string // SameHost: the labels fixed by the first request of the run
 }
 
 var immFields = []string{"pa", "pb", "w1", "w2", "qs", "qx", "ql0", "ql1", "s1", "s2", "f1", "f2", "xc", "hs", "hl0", "hl1",
-	"ck", "cs", "cl0", "cl1", "fs", "fv", "fl0", "fl1", "jb", "qkn", "qkv", "qkw", "hkn", "hkv", "hkw"}
+	"ck", "cs", "cl0", "cl1", "fs", "fv", "fl0", "fl1", "jb", "qkn", "qkv", "qkw", "hkn", "hkv", "hkw",
+	"rgu", "fmk", "fmv", "fok", "fov", "ffn", "ffc"}
 
 type immReq struct {
 	Shape  *immShape
@@ -75,7 +83,9 @@ type immReq struct {
 	CType  string // Content-Type as sent (contains upper-case letters)
 	Accept string
 	Proto  string // HTTP/1.1 or HTTP/1.0 (with Connection: keep-alive)
-	FProto string // X-Forwarded-Proto value when Shape.Fwd
+	FProto string // X-Forwarded-Proto value
+	HasFP  bool   // the request carries X-Forwarded-Proto
+	HasFH  bool   // the request carries X-Forwarded-Host
 	Body   []byte // as sent
 	Plain  []byte // after Content-Encoding is undone
 	Raw    []byte
@@ -96,10 +106,11 @@ func genShape(r *gen.Rand) *immShape {
 			sh.Len[f] = r.Range(25, 120)
 		}
 	}
-	for _, f := range []string{"s1", "s2", "f1", "f2", "qkn", "hkn"} {
+	for _, f := range []string{"s1", "s2", "f1", "f2", "qkn", "hkn", "rgu", "fmk", "fmv", "fok", "fov", "ffn"} {
 		sh.Len[f] = r.Range(1, 20)
 	}
 	sh.Route = r.PickW(4, 1, 1)
+	sh.SameHost = r.Chance(1, 4)
 	if sh.Comma {
 		for _, f := range commaFields {
 			if sh.Len[f] < 3 {
@@ -171,7 +182,7 @@ func genImmReq(r *gen.Rand, sh *immShape, idx int) *immReq {
 		if f == "s1" || f == "s2" || f == "f1" || f == "f2" {
 			al = immLower
 		}
-		if f == "qkn" || f == "hkn" {
+		if f == "qkn" || f == "hkn" || f == "rgu" {
 			al = gen.Lower // names of a query parameter ("k…") and of a header ("Xr…")
 		}
 		q.V[f] = r.StringFrom(al, sh.Len[f])
@@ -183,6 +194,18 @@ func genImmReq(r *gen.Rand, sh *immShape, idx int) *immReq {
 	}
 	for _, f := range []string{"pn", "qb0", "qb1", "hb", "cb", "fb"} {
 		q.Num[f] = num3(r)
+	}
+	q.HasFP, q.HasFH = sh.Fwd, sh.Fwd
+	if sh.SameHost {
+		// the Host header is that of request 0 of the run; forwarding headers rotate
+		if sh.hostS1 == "" {
+			sh.hostS1, sh.hostS2 = q.V["s1"], q.V["s2"]
+		}
+		q.V["s1"], q.V["s2"] = sh.hostS1, sh.hostS2
+		q.HasFP, q.HasFH = idx%3 != 0, idx%3 == 2
+		if idx%2 == 0 {
+			q.FProto = "https"
+		}
 	}
 	q.IP = [3]string{ip4(r), ip4(r), ip4(r)}
 	v := q.V
@@ -223,6 +246,7 @@ func genImmReq(r *gen.Rand, sh *immShape, idx int) *immReq {
 		part("fl", v["fl0"])
 		part("fl", v["fl1"])
 		part("fv", v["fv"])
+		b.WriteString("--" + bd + "\r\nContent-Disposition: form-data; name=\"ff\"; filename=\"" + v["ffn"] + ".txt\"\r\nContent-Type: text/plain\r\n\r\n" + v["ffc"] + "\r\n")
 		b.WriteString("--" + bd + "--\r\n")
 		q.Plain = b.Bytes()
 	case "json", "gzip-json":
@@ -253,11 +277,15 @@ func genImmReq(r *gen.Rand, sh *immShape, idx int) *immReq {
 	raw.WriteString("X-Custom: " + v["xc"] + "\r\nXr" + v["hkn"] + ": " + v["hkv"] + "\r\nXr" + v["hkn"] + ": " + v["hkw"] + "\r\n")
 	raw.WriteString("X-Forwarded-For: " + q.IP[0] + ", " + q.IP[1] + "\r\n")
 	raw.WriteString("X-Real-Ip: " + q.IP[2] + "\r\n")
-	if sh.Fwd {
-		raw.WriteString("X-Forwarded-Proto: " + q.FProto + "\r\nX-Forwarded-Host: " + v["f1"] + "." + v["f2"] + ".example.org\r\n")
+	if q.HasFP {
+		raw.WriteString("X-Forwarded-Proto: " + q.FProto + "\r\n")
+	}
+	if q.HasFH {
+		raw.WriteString("X-Forwarded-Host: " + v["f1"] + "." + v["f2"] + ".example.org\r\n")
 	}
 	raw.WriteString("Hs: " + v["hs"] + "\r\nHb: " + q.Num["hb"] + "\r\nHl: " + v["hl0"] + "\r\nHl: " + v["hl1"] + "\r\n")
-	raw.WriteString("Cookie: ck=" + v["ck"] + "; cs=" + v["cs"] + "; cb=" + q.Num["cb"] + "; cl=" + v["cl0"] + "; cl=" + v["cl1"] + "\r\n")
+	raw.WriteString("Cookie: ck=" + v["ck"] + "; cs=" + v["cs"] + "; cb=" + q.Num["cb"] + "; cl=" + v["cl0"] + "; cl=" + v["cl1"] +
+		"; fiber_flash=" + string(encMsgs([]fmsg{{Key: v["fmk"], Value: v["fmv"], Level: 0x21}, {Key: v["fok"], Value: v["fov"], Level: 0x22, Old: true}})) + "\r\n")
 	if sh.Kind == "gzip-json" {
 		var zb bytes.Buffer
 		zw := gzip.NewWriter(&zb)
@@ -273,7 +301,7 @@ func genImmReq(r *gen.Rand, sh *immShape, idx int) *immReq {
 	q.Accept = "Text/HTML, Application/JSON;q=0.8, */*;q=0.1"
 	raw.WriteString("Content-Type: " + ctype + "\r\n")
 	raw.WriteString("Accept: " + q.Accept + "\r\nAccept-Language: en-US, De;q=0.5\r\nAccept-Charset: UTF-8\r\nAccept-Encoding: GZip, Br\r\n")
-	raw.WriteString("Range: bytes=0-9\r\nIf-None-Match: W/\"" + v["xc"] + "\"\r\nCache-Control: Max-Age=0\r\nX-Requested-With: XMLHttpRequest\r\n")
+	raw.WriteString("Range: ru" + v["rgu"] + "=0-9\r\nIf-None-Match: W/\"" + v["xc"] + "\"\r\nCache-Control: Max-Age=0\r\nX-Requested-With: XMLHttpRequest\r\n")
 	if q.Method == "POST" || q.Method == "PUT" {
 		raw.WriteString("Content-Length: " + strconv.Itoa(len(q.Body)) + "\r\n")
 	}
@@ -283,16 +311,17 @@ func genImmReq(r *gen.Rand, sh *immShape, idx int) *immReq {
 	return q
 }
 
-// effective host as documented: X-Forwarded-Host wins when proxies are trusted (TrustProxy off)
-func (q *immReq) effHost() string {
-	if q.Shape.Fwd {
+// effective host as documented: X-Forwarded-Host wins when the peer counts as a trusted proxy
+// (TrustProxy off, or on with the peer listed)
+func (q *immReq) effHost(trusted bool) string {
+	if trusted && q.HasFH {
 		return q.V["f1"] + "." + q.V["f2"] + ".example.org"
 	}
 	return q.Host
 }
 
-func (q *immReq) effScheme() string {
-	if q.Shape.Fwd {
+func (q *immReq) effScheme(trusted bool) string {
+	if trusted && q.HasFP {
 		return q.FProto
 	}
 	return "http"
@@ -536,8 +565,9 @@ func capture(c fiber.Ctx, q *immReq, cfg immCfg, s *capSet, matched, withResp bo
 		}
 	}
 	s.S("Cookies", c.Cookies("ck"), v["ck"])
-	s.S("Host", c.Host(), q.effHost())
-	hn := q.effHost()
+	trusted := cfg.Proxy != 4
+	s.S("Host", c.Host(), q.effHost(trusted))
+	hn := q.effHost(trusted)
 	if i := strings.LastIndexByte(hn, ':'); i >= 0 {
 		hn = hn[:i]
 	}
@@ -558,15 +588,55 @@ func capture(c fiber.Ctx, q *immReq, cfg immCfg, s *capSet, matched, withResp bo
 		s.S("IP", c.IP(), q.IP[2])
 	case 2, 3:
 		s.S("IP", c.IP(), q.IP[0])
-	default:
+	default: // no ProxyHeader (0), or the peer is not a trusted proxy (4)
 		s.S("IP", c.IP(), "203.0.113.7")
 	}
 	s.L("IPs", c.IPs(), []string{q.IP[0], q.IP[1]})
-	s.S("Scheme", c.Scheme(), q.effScheme())
-	s.S("BaseURL", c.BaseURL(), q.effScheme()+"://"+q.effHost())
-	labels := strings.Split(q.effHost(), ".")
+	s.S("Scheme", c.Scheme(), q.effScheme(trusted))
+	s.S("Secure", strconv.FormatBool(c.Secure()), strconv.FormatBool(q.effScheme(trusted) == "https"))
+	s.S("BaseURL", c.BaseURL(), q.effScheme(trusted)+"://"+q.effHost(trusted))
+	s.S("Port", c.Port(), "40000")
+	labels := strings.Split(q.effHost(trusted), ".")
 	s.L("Subdomains", c.Subdomains(), labels[:len(labels)-2])
 	s.S("Method", c.Method(), q.Method)
+
+	// struct- and slice-returning accessors, field by field
+	if rg, err := c.Range(1000); err == nil {
+		s.S("Range.Type", rg.Type, "ru"+v["rgu"])
+	} else {
+		s.err("Range", err)
+	}
+	s.S("Accepts", c.Accepts("text/html", "application/json"), noExp)
+	s.S("AcceptsCharsets", c.AcceptsCharsets("utf-8"), noExp)
+	s.S("AcceptsEncodings", c.AcceptsEncodings("gzip", "br"), noExp)
+	s.S("AcceptsLanguages", c.AcceptsLanguages("en-US", "de"), noExp)
+	if u, err := c.GetRouteURL("named", fiber.Map{"id": c.Query("qx")}); err == nil {
+		s.S("GetRouteURL", u, "/named/"+v["qx"])
+	}
+	for _, m := range c.Redirect().Messages() {
+		s.S("Redirect.Messages.key", m.Key, v["fmk"])
+		s.S("Redirect.Messages.value", m.Value, v["fmv"])
+	}
+	for _, m := range c.Redirect().OldInputs() {
+		s.S("Redirect.OldInputs.key", m.Key, v["fok"])
+		s.S("Redirect.OldInputs.value", m.Value, v["fov"])
+	}
+	if q.Shape.Kind == "multipart" {
+		if mf, err := c.MultipartForm(); err == nil {
+			s.L("MultipartForm.value", mf.Value["fl"], []string{v["fl0"], v["fl1"]})
+			for _, fh := range mf.File["ff"] {
+				s.S("MultipartForm.filename", fh.Filename, v["ffn"]+".txt")
+			}
+		} else {
+			s.err("MultipartForm", err)
+		}
+		if fh, err := c.FormFile("ff"); err == nil {
+			s.S("FormFile.filename", fh.Filename, v["ffn"]+".txt")
+			s.L("FormFile.header", fh.Header["Content-Type"], []string{"text/plain"})
+		} else {
+			s.err("FormFile", err)
+		}
+	}
 
 	// --- binding into structs and maps ---------------------------------------------------
 	// With EnableSplittingOnParsers and a comma in the value, what a map target receives, and
@@ -702,6 +772,11 @@ func immBuild(cfg immCfg, immutable bool, side *immSide) *fiber.App {
 			fc.TrustProxy = true
 			fc.TrustProxyConfig = fiber.TrustProxyConfig{Proxies: []string{"203.0.113.7"}}
 		}
+	case 4:
+		// forwarding headers from a peer that is not a trusted proxy count for nothing
+		fc.ProxyHeader = fiber.HeaderXForwardedFor
+		fc.TrustProxy = true
+		fc.TrustProxyConfig = fiber.TrustProxyConfig{Proxies: []string{"198.51.100.1"}}
 	}
 	observe := immObserver(cfg, side)
 	fc.Views = &nullViews{}
@@ -862,7 +937,7 @@ func runImmutable(e *ev.Env) {
 	immCorpus(e)
 	e.Cases("run", e.N(300, 20000), func(c *ev.Case) {
 		r := c.R
-		cfg := immCfg{Custom: r.Chance(1, 3), CaseSens: r.Bool(), Strict: r.Bool(), Unescape: r.Bool(), Proxy: r.Intn(4), Split: r.Bool()}
+		cfg := immCfg{Custom: r.Chance(1, 3), CaseSens: r.Bool(), Strict: r.Bool(), Unescape: r.Bool(), Proxy: r.Intn(5), Split: r.Bool()}
 		sh := genShape(r)
 		n := gen.Pick(r, []int{1, 3, 10})
 		judgeImm(e, c, cfg, sh, n, r)
@@ -1018,6 +1093,16 @@ func immCorpus(e *ev.Env) {
 		sh := genShape(c.R)
 		sh.Kind, sh.Route = "json", 2
 		judgeImm(e, c, immCfg{}, sh, 3, c.R)
+	})
+	e.Corpus("same-host-rotating-forwarding-headers", func(c *ev.Case) {
+		sh := genShape(c.R)
+		sh.Kind, sh.SameHost, sh.Route = "none", true, 0
+		judgeImm(e, c, immCfg{}, sh, 3, c.R)
+	})
+	e.Corpus("same-host-untrusted-peer", func(c *ev.Case) {
+		sh := genShape(c.R)
+		sh.Kind, sh.SameHost, sh.Route = "json", true, 0
+		judgeImm(e, c, immCfg{Proxy: 4}, sh, 3, c.R)
 	})
 	e.Corpus("splitting-commas-form", func(c *ev.Case) {
 		sh := genShape(c.R)
